@@ -19,8 +19,8 @@ OVERLAY_SRC = os.path.join(VERIF, "harness", "overlay")
 BUILD = os.path.join(VERIF, ".build")
 SCRATCH = os.path.join(VERIF, ".scratch")
 SPEC = os.path.join(VERIF, "spec")
-EVIDENCE = os.path.join(VERIF, "evidence")
-REPLAYS = os.path.join(VERIF, "replays")
+EVIDENCE = os.environ.get("VERIF_EVIDENCE_DIR", os.path.join(VERIF, "evidence"))   # (seeded trial runs write elsewhere)
+REPLAYS = os.environ.get("VERIF_REPLAYS_DIR", os.path.join(VERIF, "replays"))
 TLA_CP = "/opt/veriftools/tla/tla2tools.jar:/opt/veriftools/tla/CommunityModules-deps.jar"
 
 
@@ -89,7 +89,12 @@ def cleanup_build():
     _built.clear()
 
 
-def run_harness(args, timeout=600, race=False, env_extra=None, check=True, stdin=None):
+class HarnessDied(Exception):
+    """The driver process did not finish (crash of the code under test that cannot be recovered, or a hang): the trace
+    written so far is still on disk (every line is flushed)."""
+
+
+def run_harness(args, timeout=600, race=False, env_extra=None, check=True, stdin=None, partial_ok=False):
     binp = build_harness(race)
     env = dict(os.environ)
     if env_extra:
@@ -98,7 +103,11 @@ def run_harness(args, timeout=600, race=False, env_extra=None, check=True, stdin
         p = subprocess.run([binp] + [str(a) for a in args], capture_output=True, text=True,
                            timeout=timeout, env=env, input=stdin)
     except subprocess.TimeoutExpired:
+        if partial_ok:
+            raise HarnessDied("harness timed out after %ds: %s" % (timeout, args))
         raise InfraError("harness timed out: %s" % (args,))
+    if check and p.returncode != 0 and partial_ok:
+        raise HarnessDied("harness %s died (rc=%d): %s" % (args, p.returncode, p.stderr[:1500]))
     if check and p.returncode != 0:
         raise InfraError("harness %s failed (rc=%d):\n%s\n%s" % (args, p.returncode, p.stdout[-4000:], p.stderr[-8000:]))
     return p
@@ -262,6 +271,21 @@ def write_ndjson(path, rows):
     with open(path, "w") as fh:
         for r in rows:
             fh.write(json.dumps(r, separators=(",", ":")) + "\n")
+
+
+def read_ndjson_partial(path):
+    """Reads a trace whose writer may have died: a truncated last line is dropped."""
+    rows = []
+    with open(path) as fh:
+        for line in fh:
+            line = line.strip()
+            if not line:
+                continue
+            try:
+                rows.append(json.loads(line))
+            except ValueError:
+                break
+    return rows
 
 
 def read_ndjson(path):
